@@ -109,6 +109,14 @@ func families() []fam {
 			add(fmt.Sprintf("flat-zero-then-rising([%g,%g])", lo, hi), lo, hi, true, func(x float64) float64 { return math.Max(0, x-(lo+0.25*(hi-lo))) })
 		}
 	}
+	// re-entrancy: the function being solved runs a root search of its own at every evaluation (as a kernel that solves
+	// a sub-problem per trial would); FindRoot must not keep anything of a call outside that call
+	inner := func() float64 {
+		x, _ := fn.FindRoot(func(y float64) float64 { d := y - 0.3; return d*d*d + 0.5*d }, nil, 12.5, -40, 60, 1e-12, 1e-14, 80)
+		return x
+	}
+	add("nested-search(x-inner-root-0.3)", -1, 1, true, func(x float64) float64 { return x - inner() })
+	add("nested-search(3*(x+0.7)+0*inner)", -1, 1, true, func(x float64) float64 { return 3*(x+0.7) + 0*inner() })
 	// non-monotone with a bracketed sign change
 	add("three-roots", -1, 1, false, func(x float64) float64 { return (x + 0.8) * (x - 0.1) * (x - 0.7) })
 	add("damped-sine", 0, 3, false, func(x float64) float64 { return math.Exp(-x)*math.Sin(5*x) + 0.05*(x-1.5) })
@@ -578,7 +586,7 @@ func (e *enum) CrashSig(i int64, tail string) (string, string) {
 func Spec() *vf.Check {
 	return &vf.Check{
 		ID: "C18", Level: "exploration", BlockSize: 512,
-		Rule: "FindRoot: 229 functions on an interval (linear, cubic, the root exactly at / a hair inside either end of 28 intervals with non-dyadic ends, x^p-c and its mirror image (secant iterations stall), sqrt(x)-c and its mirror image (root near an end), saturating exponential, piecewise-linear with flat segments and kinks, steep ramp, routing-residual shapes, antisymmetric end values, flat-then-steep / steep-then-flat kinks with the root near an end; non-monotone: three roots, damped sine) x derivative {exact,nil,zero,wrong sign,constant slope bound,half the slope,constant 1} x initial guess {min,1/4,1/2,max} x tolerance {1e-3,1e-6,1e-9} x convergence limit {1e-8,1e-12} x budget {0..8,10,12,15,20,25,30,40,60}; every evaluation point logged. " +
+		Rule: "FindRoot: 231 functions on an interval (linear, cubic, the root exactly at / a hair inside either end of 28 intervals with non-dyadic ends, x^p-c and its mirror image (secant iterations stall), sqrt(x)-c and its mirror image (root near an end), two functions that run a root search of their own at every evaluation (re-entrancy), saturating exponential, piecewise-linear with flat segments and kinks, steep ramp, routing-residual shapes, antisymmetric end values, flat-then-steep / steep-then-flat kinks with the root near an end; non-monotone: three roots, damped sine) x derivative {exact,nil,zero,wrong sign,constant slope bound,half the slope,constant 1} x initial guess {min,1/4,1/2,max} x tolerance {1e-3,1e-6,1e-9} x convergence limit {1e-8,1e-12} x budget {0..8,10,12,15,20,25,30,40,60}; every evaluation point logged. " +
 			"Piecewise: every strictly increasing knot vector of length 2..4 (quick) / 2..5 (thorough) from {-2,0,0.1,0.3,0.7,1,10} x every y assignment from {-1,0,0.1,0.3,0.7,5} x queries at every knot, mid/quarter points, the floats adjacent to each knot, below, above, NaN, +-Inf x {contiguous, column view, stepped view} tables; tables of 6..100 knots and tables whose neighbouring knots are adjacent floats / 4e-13 apart / at 1e-15, 1e300 and denormal scale; and every ORDERED pair of knot vectors: every lookup in the first followed by every lookup in the second (another array, and the same array rewritten in place), second result against the interpolant. distinct_nontrivial = cases that passed all clauses.",
 		Assumptions: []string{"'budget suffices for interval halving' is taken as: slope bound x (max-min)/2^budget < tolerance/2 and slope bound x 2 x convergenceLimit < tolerance/2 (sound for any bracketing method that includes the midpoint every iteration and may stop once the bracket is narrower than twice the convergence limit)", "lattice values only"},
 		Build: func(tier string) vf.Enumeration {
